@@ -21,7 +21,8 @@ NEUTRAL = {
     "snap": {"File": "observation of the state file", "Mem": "stutter when the configuration did not change",
              "Return": "last step of a command: no later line depends on it", "ReturnWithoutSave": "last step of a command"},
     "own": {"Probing": "observation of the live probe loops", "Close": "stutter for repeated closes", "Remove": "observation",
-            "PreRet": "stutter when nothing is pending", "Return": "last step of a command: no later line depends on it"},
+            "PreRet": "stutter when nothing is pending", "Return": "last step of a command: no later line depends on it",
+            "NotFound": "without it the step is taken at the command's return"},
 }
 FIELD = {  # kind -> (line kind, field, corrupt(value, header))
     "proxy": [("Rotation", "healthy", lambda v, h: []), ("HcApply", "state", lambda v, h: 3 if v != 3 else 2),
